@@ -1,16 +1,23 @@
 #!/bin/bash
-# usage: tools/run_harmless.sh <harmless-id> [props...]: every check must stay exit 0 on a harmless edit
+# usage: tools/run_harmless.sh <harmless-id> [props...]: every check must stay exit 0 on a harmless edit.
+# Without a property list the screening mode `./check all` is used (one symbolic run, per-property verdicts);
+# with a list, the registered per-property commands.
 id=$1; shift
-props=${@:-C01 C02 C03 C04 C05 C06 C07 C08 C09 C10 C11 C12 C13 C14 C15 C16 C17 C18 C19 C20}
 cd "$(dirname "$0")/.."
 tmp=$(mktemp -d /tmp/sqv_harm_XXXXXX)
 trap 'rm -rf "$tmp"' EXIT
 mkdir -p $tmp/repo && cp -r /repo/smartquery $tmp/repo/
 (cd $tmp/repo && patch -s -p1 < /verif/harmless/$id/patch.diff) || { echo "$id: PATCH FAILED"; exit 9; }
 bad=""
-for p in $props; do
-  SQ_REPO=$tmp/repo SQV_OUT=$tmp/out ./check $p > $tmp/out_$p.txt 2>&1
-  code=$?
-  if [ $code -ne 0 ]; then bad="$bad $p(exit $code: $(grep -m2 '^  obligation\|^UNDECIDED\|^CHECKER' $tmp/out_$p.txt | cut -c1-170 | tr '\n' '|'))"; fi
-done
+if [ $# -eq 0 ]; then
+  SQ_REPO=$tmp/repo SQV_OUT=$tmp/out ./check all > $tmp/out_all.txt 2>&1
+  bad=$(grep -v "exit 0;" $tmp/out_all.txt | grep "^C[0-9][0-9]: \|^VIOLATION\|^  obligation\|^UNDECIDED\|^CHECKER" | cut -c1-200 | head -8 | tr '\n' '|')
+  [ -n "$VERBOSE" ] && cat $tmp/out_all.txt
+else
+  for p in "$@"; do
+    SQ_REPO=$tmp/repo SQV_OUT=$tmp/out ./check $p > $tmp/out_$p.txt 2>&1
+    code=$?
+    if [ $code -ne 0 ]; then bad="$bad $p(exit $code: $(grep -m2 '^  obligation\|^UNDECIDED\|^CHECKER' $tmp/out_$p.txt | cut -c1-170 | tr '\n' '|'))"; fi
+  done
+fi
 echo "$id: ${bad:-all exit 0}"
